@@ -3863,7 +3863,8 @@ class ScoreVariant(object):
                     tp_new.add_starting_object(o_copy)
                     if o.end is not None:
                         # add the end of the object to the part
-                        tp_end = part.get_or_add_point(o.end.t + delta)
+                        # an object that ends outside the segment ends with it
+                        tp_end = part.get_or_add_point(min(o.end.t, end.t) + delta)
                         tp_end.add_ending_object(o_copy)
 
                 tp = tp.next
